@@ -395,6 +395,43 @@ def replay_gen(payload):
             if bad:
                 fail(bad[0], si + 1, bad[1], bad[2], o)
                 break
+            # ---- get_value by state NAME (any label type) on the object the step produced or changed
+            tgt_obj = objs[tgt - 1]
+            exp_t = st["store"][tgt - 1]
+            if exp_t["scope"] and tgt_obj is not None:
+                for c in rng.sample(exp_t["cells"], min(2, len(exp_t["cells"]))):
+                    n, d = c["v"]
+                    if d == 0:
+                        continue
+                    ncalls += 1
+                    try:
+                        x = tgt_obj.get_value(**{conc.vn[t]: conc.sn[t][s_] for t, s_ in c["a"].items()})
+                        x = float(x.item() if hasattr(x, "item") else x)
+                    except Exception as ex:  # noqa
+                        x = repr(ex)[:120]
+                    if not (isinstance(x, float) and abs(x - n / d) <= TOL * max(1.0, abs(n / d))):
+                        fail("get_value", si + 1, {"a": c["a"], "got": x}, c["v"], o)
+                        break
+        else:
+            # ---- FactorDict.dot over the final store (one clique per dictionary; the two factors list the variables in their own orders)
+            from pgmpy.factors.FactorDict import FactorDict
+            for dt in beh.get("dots", [])[:6]:
+                f1, f2 = objs[dt["i"] - 1], objs[dt["j"] - 1]
+                n, d = dt["v"]
+                if d == 0 or f1 is None or f2 is None:
+                    continue
+                ncalls += 1
+                key = tuple(sorted(f1.variables, key=repr))
+                try:
+                    x = FactorDict({key: f1}).dot(FactorDict({key: f2}))
+                    x = float(x.item() if hasattr(x, "item") else x)
+                except Exception as ex:  # noqa
+                    x = repr(ex)[:120]
+                if not (isinstance(x, float) and abs(x - n / d) <= TOL * max(1.0, abs(n / d))):
+                    fails.append({"api": "FactorDict.dot", "clause": "value", "features": {},
+                                  "case": {"kind": "gen", "pool": pool, "beh": beh, "seed": payload["seed"], "hashseed": hs},
+                                  "observed": {"i": dt["i"], "j": dt["j"], "got": x}, "expected": dt["v"]})
+                    break
     return {"n": len(payload["behs"]), "calls": ncalls, "fails": fails[:40]}
 
 
